@@ -48,7 +48,7 @@ import (
 
 type stats struct {
 	accepted, noncanonical, refSkipped, unadapted atomic.Int64
-	unspec                                         sync.Map // class -> *atomic.Int64
+	unspec                                        sync.Map // class -> *atomic.Int64
 }
 
 func (s *stats) note(class string) {
@@ -79,6 +79,10 @@ func goTest4(in []byte) string {
 		t.Errorf("not a fixpoint:\n b1=%%x\n b2=%%x", b1, b2)
 	}
 	t.Logf("first:  %%s\nsecond: %%s", p.Summary(), p1.Summary())
+	// sname/file longer than 63/127 octets are cut, reserved flag bits may be cleared: everything else must be equal
+	if p.Summary() != p1.Summary() {
+		t.Errorf("the packet changed")
+	}
 }`, fw.Hex(in))
 }
 
@@ -257,8 +261,8 @@ func goTest6(in []byte) string {
 	if !bytes.Equal(b1, b2) {
 		t.Errorf("not a fixpoint")
 	}
-	if m.Summary() != m1.Summary() {
-		t.Errorf("the message changed")
+	if m.Summary() != m1.Summary() || !reflect.DeepEqual(m, m1) {
+		t.Errorf("the message changed:\n first  %%#v\n second %%#v", m, m1)
 	}
 }`, fw.Hex(in))
 }
@@ -292,7 +296,7 @@ var shortClass = map[string]string{
 	v6ref.WhyNameLong:            "name:longer-than-255",
 }
 
-// optionsOf returns the nested option lists of a library option (innermost culprit search).
+// childLists returns the nested option lists of a library option (innermost culprit search).
 func childLists(o dhcpv6.Option) []dhcpv6.Options {
 	switch x := o.(type) {
 	case *dhcpv6.OptIANA:
@@ -512,7 +516,7 @@ func pow(a, n int) int64 {
 
 // areas enumerates every string over alpha up to maxLen after hdr.
 func areas(c *fw.Ctx, scope string, hdr []byte, alpha []byte, maxLen int, ord *int64, check func(*fw.Ctx, string, int64, []byte) bool) {
-	var total, acc atomic.Int64
+	var acc atomic.Int64
 	var base int64
 	for l := 0; l <= maxLen; l++ {
 		n := pow(len(alpha), l)
@@ -534,7 +538,6 @@ func areas(c *fw.Ctx, scope string, hdr []byte, alpha []byte, maxLen int, ord *i
 		})
 		base += n
 	}
-	total.Store(base)
 	c.Nontrivial(acc.Load())
 	c.Scope(scope, "alphabet", fw.Hex(alpha), "max_len", maxLen, "cases", base, "accepted", acc.Load())
 	*ord += base
